@@ -38,9 +38,13 @@ structure Params where
   tokenCap : Nat
   /-- environment assumption: establishments are sequential (see file header) -/
   sequential : Bool
+  /-- `GRPCServerMuxer.Accept` hands a knocked stream to its listener with a BLOCKING send (`acceptCh <- …`, no
+  `default`/fallback): it waits until the listener's `Accept()` takes it, however late that is called -/
+  handoffBlocks : Bool
   deriving DecidableEq, Repr
 
-def Params.Good (P : Params) : Prop := P.registerFirst = true ∧ P.tokenCap = 1 ∧ P.sequential = true
+def Params.Good (P : Params) : Prop :=
+  P.registerFirst = true ∧ P.tokenCap = 1 ∧ P.sequential = true ∧ P.handoffBlocks = true
 
 instance (P : Params) : Decidable P.Good := by unfold Params.Good; exact inferInstance
 
@@ -109,6 +113,10 @@ inductive Event
   | mainStream
   /-- server role: the main accept loop takes the next stream -/
   | xAccept
+  /-- server role: the main accept loop takes the next stream while the token's listener is NOT parked in its
+  `Accept()` (the plugin called `broker.Accept(n)` and starts serving the listener a little later).  With a blocking
+  hand-off this is no step at all — the loop waits, and the step is `xAccept` when the listener arrives. -/
+  | xAcceptUnparked
   /-- client role: the unblocked listener `id` takes the next stream -/
   | lAccept (id : Nat)
   deriving DecidableEq, Repr
@@ -179,6 +187,15 @@ def step (P : Params) (s : State) : Event → Option State
         if s.reg id then some { s with q := q', tok := none, delivered := s.delivered ++ [(t, .listener id)] }
         else some { s with q := q', tok := none, delivered := s.delivered ++ [(t, .fatal)], mainDead := true }
       | none => some { s with q := q', delivered := s.delivered ++ [(t, .default)] }
+    | _, _ => none
+  | .xAcceptUnparked =>
+    match s.role, s.q with
+    | .server, t :: q' =>
+      if s.mainDead || P.handoffBlocks then none else
+      match s.tok with
+      | some id =>
+        if s.reg id then some { s with q := q', tok := none, delivered := s.delivered ++ [(t, .default)] } else none
+      | none => none
     | _, _ => none
   | .lAccept id =>
     match s.role, s.q with
